@@ -352,6 +352,7 @@ type sim struct {
 	hist   []string
 	hintOp int
 	hintN  uint64
+	pub    int32
 }
 
 //go:norace
@@ -380,7 +381,16 @@ func (s *sim) vio(prop, rule, facts, msg string) {
 //go:norace
 func (s *sim) call(name string, fn func()) {
 	s.hint()
-	s.k.Spawn(name, 0, nil, fn)
+	s.k.Spawn(name, 0, nil, func() {
+		// the application hands the constructed object to its goroutines with
+		// proper synchronisation: one edge from the constructor, none between
+		// the operations themselves
+		kern.HBAcquire(&s.pub)
+		fn()
+		if name == "New" {
+			kern.HBRelease(&s.pub)
+		}
+	})
 	s.k.Quiesce()
 	s.kernelFailure()
 }
@@ -833,19 +843,20 @@ func (s *sim) runConcurrent(src *simkit.Source) {
 		case OpAvail:
 			e := universe[o.E%len(universe)]
 			s.hint()
-			s.k.Spawn("SetEndpointAvailability", 0, nil, func() { s.me.SetEndpointAvailability(e, o.Up) })
+			s.k.Spawn("SetEndpointAvailability", 0, nil, func() { kern.HBAcquire(&s.pub); s.me.SetEndpointAvailability(e, o.Up) })
 		case OpSetList:
 			l := names(o.List)
 			if len(l) > 0 {
 				lists = append(lists, l)
 			}
 			s.hint()
-			s.k.Spawn("SetEndpoints", 0, nil, func() { _ = s.me.SetEndpoints(append([]string{}, l...)) })
+			s.k.Spawn("SetEndpoints", 0, nil, func() { kern.HBAcquire(&s.pub); _ = s.me.SetEndpoints(append([]string{}, l...)) })
 		case OpAdvance:
 			s.k.Advance(time.Duration(o.Ms) * time.Millisecond)
 		default:
 			s.hint()
 			s.k.Spawn("Current", 0, nil, func() {
+				kern.HBAcquire(&s.pub)
 				x := s.me.Current()
 				ok := false
 				for _, l := range lists {
